@@ -503,9 +503,9 @@ def walk_no_nested(fn):
     while stack:
         n = stack.pop()
         yield n
+        if isinstance(n, FuncTypes + (ast.Lambda, ast.ClassDef)):
+            continue  # the nested definition itself is visited, its body is not
         for c in reversed(list(ast.iter_child_nodes(n))):
-            if isinstance(c, FuncTypes + (ast.Lambda, ast.ClassDef)):
-                continue
             stack.append(c)
 
 
